@@ -717,7 +717,7 @@ func (st *c20sState) process(parser, src, desc string, r *c20sRun, keepGoing, pu
 			rec.verdict = "not-nested"
 		}
 		if hasAst {
-			rec.buildLine = fmt.Sprintf("buildfile %d %d %s", st.fileType[parser], len(src), es)
+			rec.buildLine = fmt.Sprintf("%s %d %d %s", c20BuildFileOp(), st.fileType[parser], len(src), es)
 			rec.treeText = treeText
 		}
 		return rec
@@ -779,8 +779,8 @@ func (st *c20sState) nodeLoss(parser, src, desc string, evs []c20Ev, root *c20sN
 	if len(extra) > 0 {
 		details += "; not reported " + c20EvsStr(extra)
 	}
-	if atEnd {
-		// Known defect candidate: build() adds File (0,len) and takes stack[0]; empty nodes reported at
+	if atEnd && c20EndOffsetDropped {
+		// Known defect (reported once by the start-up probe [C20-end-offset-node-dropped]): build() adds File (0,len) and takes stack[0]; empty nodes reported at
 		// offset == len(content) stay outside of File and are dropped.
 		c.Count(parser + ": FINDING-CLASS node at the end offset dropped by build()")
 		if st.findings {
@@ -1122,7 +1122,7 @@ func c20Shipped(c *Ctx) {
 	}
 	rng := c.Rng
 	thorough := c.Tier == "thorough"
-	st := &c20sState{c: c, rng: rng, findings: c20Findings(), runs: map[string]int{}, timeouts: map[string]int{},
+	st := &c20sState{c: c, rng: rng, findings: false, runs: map[string]int{}, timeouts: map[string]int{},
 		pools:    map[string]*[3]c20sPool{},
 		fileType: map[string]int{"tm": int(tm.File), "js": int(js.File)},
 		lossSeen: map[string]bool{}}
@@ -1375,7 +1375,7 @@ func c20Shipped(c *Ctx) {
 	}
 	c.Extra["c20_shipped"] = extra
 	c20RuleExtra += "Shipped parsers: nothing is excluded from generation; a tree that lacks only nodes reported at offset == len(input) " +
-		"(empty node after the File range, dropped by builder.build()) is counted as FINDING-CLASS and flagged only with VERIF_FINDINGS set, any other lost node is a violation; " +
+		"(empty node after the File range, dropped by builder.build()) is counted as FINDING-CLASS while the start-up probe fails, any other lost node is a violation; " +
 		"the public ast.Parse is compared for tm and for js modules in the Javascript dialect only (it has no dialect or entry-point argument); " +
 		"json and test have no error handler, their non-trivial cases are the rejected inputs; streams over 3000 events are checked on a random window plus 200 sampled events against all others. "
 }
